@@ -48,15 +48,15 @@ class FuncInfo:
       ps = ps[1:]
     return ps
 
-  def view(self, depth=3, keep=()):
+  def view(self, depth=3, keep=(), only=None):
     """This function with its private helpers expanded (sa/inline.py view):
     the same statements whether the work sits in the function or in helpers."""
     cache = self.__dict__.setdefault('_views', {})
-    key = (depth, tuple(sorted(keep)))
+    key = (depth, tuple(sorted(keep)), tuple(sorted(only)) if only is not None else None)
     if key not in cache:
       from sa import inline
       cache[key] = inline.view(self.node, self.cls.node if self.cls else None,
-                               self.module.tree, depth, keep)
+                               self.module.tree, depth, keep, only)
     return cache[key]
 
   def is_static(self):
